@@ -11,8 +11,8 @@ from extract import ExtractionError
 
 LR = "prqlc/prqlc-parser/src/lexer/lr.rs"
 
-LABELS = ["EQ1", "EQI", "EQD", "QS3"]
-FUNCTIONS = ["escape_all_except_quotes", "quote_string"]
+LABELS = ["EQ1", "EQI", "EQD", "QS3", "FL1"]
+FUNCTIONS = ["escape_all_except_quotes", "quote_string", "float_arm"]
 RLIMIT = 80
 
 ASSUMED = [
@@ -24,6 +24,10 @@ ASSUMED = [
     {"what": "ORACLE LINK (std + lexer): for every char that is not a quote, what char::escape_default prints (\\\\t \\\\r \\\\n \\\\\\\\ \\\\' \\\\\\\" , printable ASCII as itself, "
              "everything else \\\\u{HEX} with 1-6 digits) is an escape the PRQL lexer decodes to that char (lexer contract: unit lex_strings ES2a, ES2c); validated by the "
              "thorough-tier sweep over control, ASCII and non-ASCII characters", "keys": ["fn axiom_escape_default_decodes", "spec fn hex_value"]},
+    {"what": "std formatting of f64: `write!(f, \"{x}\")` appends the uninterpreted f64_display_text(x), `write!(f, \"{x:?}\")` appends f64_debug_text(x); Debug of a finite f64 "
+             "always has a `.` or an exponent (axiom_debug_is_float, from core::fmt::float: Debug uses float_to_general_debug, which prints `1.0`, `1e20`); Display of an "
+             "integral value does not (`1`): nothing is assumed about it; the formatter is a shim with a ghost text",
+     "keys": ["struct Formatter", "fn fmt_write_f64_display", "fn fmt_write_f64_debug", "spec fn f64_display_text", "spec fn f64_debug_text", "fn axiom_debug_is_float", "spec fn reads_as_float"]},
     common_std.VERIF_ITER_ASSUMPTION,
     {"what": "quote_string: str::contains / starts_with / ends_with for a char have their std meaning; the iterator chain `s.split(|c| c != quote).map(len).max().unwrap_or(0)` "
              "is max_run(): the length of the longest run of that quote in s (0 if it does not occur); `quote.to_string().repeat(n)` is n copies of the quote; the two "
@@ -110,6 +114,18 @@ pub open spec fn flat(ps: Seq<Seq<char>>) -> Seq<char>
     if ps.len() == 0 { Seq::<char>::empty() } else { flat(ps.drop_last()) + ps.last() }
 }
 // out is one piece per character of s, each decoding to that character
+// ---------------------------------------------------------------- float literals
+pub struct Formatter { pub text: Ghost<Seq<char>> }
+pub uninterp spec fn f64_display_text(x: f64) -> Seq<char>;
+pub uninterp spec fn f64_debug_text(x: f64) -> Seq<char>;
+// the lexer reads a text as a FLOAT literal (not an integer) iff it has a fraction or an exponent
+pub uninterp spec fn reads_as_float(t: Seq<char>) -> bool;
+pub broadcast proof fn axiom_debug_is_float(x: f64) ensures reads_as_float(#[trigger] f64_debug_text(x)), { admit(); }
+#[verifier::external_body]
+pub fn fmt_write_f64_display(f: &mut Formatter, x: &f64) -> (r: Result<(), ()>) ensures final(f).text@ == old(f).text@ + f64_display_text(*x), { unimplemented!() }
+#[verifier::external_body]
+pub fn fmt_write_f64_debug(f: &mut Formatter, x: &f64) -> (r: Result<(), ()>) ensures final(f).text@ == old(f).text@ + f64_debug_text(*x), { unimplemented!() }
+
 pub open spec fn reads_back(out: Seq<char>, s: Seq<char>, ps: Seq<Seq<char>>) -> bool {
     ps.len() == s.len() && out == flat(ps) && forall|i: int| 0 <= i < s.len() ==> decodes_to(#[trigger] ps[i], s[i])
 }
@@ -179,8 +195,21 @@ def build(X):
             reads_as(r@, s@), // @QS3
     """)
     qs.insert_at_body_start("proof { axiom_max_run(s@, '\"'); axiom_max_run(s@, '\\''); }", "oracle facts about runs of quotes")
+    # ---- Display for Literal: the Float arm
+    df = X.fn(LR, "fmt", after="impl std::fmt::Display for Literal")
+    m = re.search(r"Literal::Float\((\w+)\) => (write!\(f, \"\{\1(:\?)?\}\"\)\?),", df.text)
+    if not m:
+        raise ExtractionError("Display for Literal: the arm `Literal::Float(x) => write!(f, \"{x}\")?,` is not where the unit expects it")
+    df.name = "float_arm"
+    df.text = ("pub fn float_arm(f: &mut Formatter, %s: &f64) -> (r: Result<(), ()>)\n"
+               "    ensures\n"
+               "        // C14: a float literal is printed as text that reads back as a FLOAT (`1.0` must not become the integer `1`)\n"
+               "        r is Ok ==> exists|t: Seq<char>| final(f).text@ == old(f).text@ + t && #[trigger] reads_as_float(t), // @FL1\n"
+               "{\n    broadcast use axiom_debug_is_float;\n    %s;\n    Ok(())\n}\n" % (m.group(1), "fmt_write_f64_debug(f, %s)?" % m.group(1) if m.group(3) else "fmt_write_f64_display(f, %s)?" % m.group(1)))
+    df.rewrites.append({"rule": "slice", "what": "arm `Literal::Float(x) => write!(f, ..)?` of Display for Literal wrapped as fn float_arm(f, x)"})
+    df.rewrites.append({"rule": "R5", "what": "`write!(f, \"{x}\")` -> fmt_write_f64_display(f, x); `write!(f, \"{x:?}\")` -> fmt_write_f64_debug(f, x)"})
     wrap_escaped = "#[verifier::external_body] pub fn fmt_wrap_escaped(s: &str) -> (r: String) ensures r@ == seq!['\"'] + escape_dq(s@) + seq!['\"'], { unimplemented!() }\n"
-    return PRELUDE + ef.text + "\n" + wrap_escaped + qs.text + "\n} // verus!\nfn main() {}\n"
+    return PRELUDE + ef.text + "\n" + wrap_escaped + qs.text + "\n" + df.text + "\n} // verus!\nfn main() {}\n"
 
 
 # ----------------------------------------------------------------------------- replay / sweep on the real formatter
@@ -224,10 +253,35 @@ def _try(lit):
 
 
 def sweep():
-    return [_try(l) for l in _lits()]
+    return [_try(l) for l in _lits()] + [_try_float(l) for l in _FLOATS]
+
+
+_FLOATS = ["13.0", "1.0", "1e3", "0.5e1", "1e20", "6.022e23", "2.5", "1e-7"]
+
+
+def _try_float(lit):
+    import replaylib
+    src = "from t\nselect {v = %s}\n" % lit
+    # FL1: floats with an integral value (known finding); FL2 (executed only): floats beyond the i64 range, which Display prints as a long run of digits
+    big = abs(float(lit)) >= 2 ** 63
+    rec = {"obligation": "fmt_strings.FL2" if big else "fmt_strings.FL1", "input": src, "replay_kind": "fmt_float", "lit": lit, "expected": "fmt output compiles to the same SQL (the literal stays a float)"}
+    ok0, sql0 = replaylib.compile_prql(src, "sql.generic")
+    okf, f1 = _fmt(src)
+    if not (ok0 and okf):
+        rec.update(failing=not okf and ok0, observed=(f1 if not okf else sql0)[:200])
+        return rec
+    ok1, sql1 = replaylib.compile_prql(f1, "sql.generic")
+    rec.update(failing=not (ok1 and sql1 == sql0), observed="formatted %r -> %s" % (f1.split("\n")[1][:60], "same SQL" if ok1 and sql1 == sql0 else (sql1 or "")[:120]))
+    return rec
 
 
 def replay(failure):
+    if failure.get("obligation", "").endswith("FL1"):
+        for lit in _FLOATS:
+            r = _try_float(lit)
+            if r["failing"]:
+                return r
+        return {"failing": False}
     for r in sweep():
         if r["failing"]:
             return r
@@ -235,4 +289,6 @@ def replay(failure):
 
 
 def rerun(doc):
+    if doc.get("replay_kind") == "fmt_float":
+        return _try_float(doc["lit"])
     return _try(doc["lit"])
